@@ -26,6 +26,7 @@ Games ==
       [] Family = "jump1" -> DescribeAll("jump1", Pick(K, Jump1Games))
       [] Family = "duplabel" -> DescribeAll("duplabel", DupLabelGames)
       [] Family = "minreachrank" -> DescribeAll("minreachrank", MinReachRankGames)
+      [] Family = "finaldeadend" -> DescribeAll("finaldeadend", FinalDeadEndGames)
       [] Family = "zerow" -> DescribeAll("zerow", ZeroWGames)
       [] Family = "slow" -> DescribeAll("slow", Pick(K, SlowGames))
       [] Family = "bigrew" -> DescribeAll("bigrew", Pick(K, BigRewGames))
